@@ -104,7 +104,8 @@ class ChannelEngine(Engine):
                    'nothing is inserted inside a dump file or between the rows of a section: the formats forbid it',
                    'for a data file with non-periodic directions the expected cell is the cell after the documented wrap, taken from '
                    'System.wrap itself (its correctness is C05, not C08)',
-                   'peri and smd atom styles are not generated: lammps.style.unit has no "volume" entry for them']
+                   'peri and smd atom styles are not generated: lammps.style.unit has no "volume" entry for them',
+                   'a refused dump leaves a file or stream that holds (or will hold) a good dump as it is; what pandas leaves in a file it opened before failing is not promised and not tested', 'a broken file tried before a good one must not change how the good one loads']
 
     # ------------------------------------------------------------------
     def config(self, ctx):
